@@ -73,7 +73,13 @@ def check(ctx):
         role = s.extra['role']
         if role[0] == 'method' and role[1] == 'append':
             o.count()
-            if not (len(role[2].args) == 1 and ast.unparse(role[2].args[0]) == 'self' and s.cls is not None and s.cls.name == 'GroupPath'):
+            own_push = len(role[2].args) == 1 and ast.unparse(role[2].args[0]) == 'self' and s.cls is not None and s.cls.name == 'GroupPath'
+            # a group output that took its path off the stack before offering the part puts the same path back when the part is refused
+            from ..norm import single_defs as _sd2
+            a0 = role[2].args[0] if len(role[2].args) == 1 else None
+            d0 = _sd2(s.func).get(a0.id) if isinstance(a0, ast.Name) and s.func is not None else None
+            put_back = s.cls is not None and s.cls.name == 'GroupOutput' and d0 is not None and ast.unparse(d0) == ast.unparse(role[2].func.value) + '.pop()'
+            if not (own_push or put_back):
                 o.fail(P, s.ctx, s.stmt, 'only a GroupPath may push itself on the group-path stack', file=s.mod.path, line=s.line)
     # Part: history is an append-only list with positional delete; routing_history returns a copy in order
     if P.has_cls('Part'):
@@ -144,13 +150,57 @@ def check(ctx):
         for cl in calls:
             r = cl.func.value
             src = defs.get(r.id) if isinstance(r, ast.Name) else r
-            if src is not None and ast.unparse(src) == f'{pn}._group_pathing[-1]' and [ast.unparse(a) for a in cl.args] == [pn]:
+            if src is not None and ast.unparse(src) in (f'{pn}._group_pathing[-1]', f'{pn}._group_pathing.pop()') and [ast.unparse(a) for a in cl.args] == [pn]:
                 good = True
         if len(calls) != 1 or not good:
             o.fail(P, 'GroupOutput.give_part', 'part._group_pathing[-1]._pass_part_downstream(part)', 'the part does not leave the group through the most recently entered path',
                    file=c.mod.path, line=fn.lineno)
         else:
             o.witness('exit-through-top')
+    # C08.10: the entry a group output removes is its own: a downstream that accepts the part may be a GroupPath, which pushes itself on
+    # the same stack, so after an accepted hand-over the top is no longer the path being left -- the path must be taken off before
+    # the part is offered (and put back on refusal)
+    o10 = Ob('C08.10', 'K5', 'the group-path stack is never popped after a delegated hand-over that was accepted (the accepting downstream may have pushed itself): '
+                             'a group output takes its path off the stack before offering the part and puts it back on refusal')
+    obs.append(o10)
+    from ..state import Analysis as _An, State as _St
+    from .c02 import foreign_deleg_call as _fdc
+    for c10 in [k for k in P.classes.values() if P.has_cls('PartFlowController') and P.cls('PartFlowController') in k.mro]:
+        hit = P.lookup(c10, 'give_part')
+        if not hit or hit[1] != 'method' or not any(isinstance(x, ast.Attribute) and x.attr == '_group_pathing' for x in ast.walk(hit[0].node)):
+            continue
+        g10 = ctx.graph(c10, 'give_part', boolean=True)
+
+        def hook10(an_, n, before, after, g10=g10):
+            st = after
+            a = n.ast
+            if n.kind == 'stmt' and isinstance(a, ast.Assign) and len(a.targets) == 1 and isinstance(a.targets[0], ast.Name) and isinstance(a.value, ast.Call) \
+                    and call_attr(a.value) in ('give_part', '_pass_part_downstream') and not is_self_attr(a.value.func):
+                st = st.with_flag(f'deleg:{n.frame.id}:{a.targets[0].id}')
+            for cl in calls_at(g10, n):
+                if call_attr(cl) == 'pop' and isinstance(cl.func, ast.Attribute) and isinstance(cl.func.value, ast.Attribute) and cl.func.value.attr == '_group_pathing':
+                    accepted = 'deleg-true' in st.flags or any(f.startswith('deleg:') and st.locals.get((int(f.split(':')[1]), f.split(':')[2])) == 'T' for f in st.flags)
+                    if accepted:
+                        st = st.with_flag('POP-AFTER-ACCEPT')
+            return st
+
+        def edge10(an_, n, label, st, g10=g10):
+            if n.kind == 'cond' and label == 'T' and _fdc(g10, n, n.ast):
+                return st.with_flag('deleg-true')
+            return st
+        an10 = _An(P, g10, ['_block_input'])
+        an10.node_hooks.append(hook10)
+        an10.edge_hooks.append(edge10)
+        res10 = ctx.explore(an10, [_St({'_block_input': 'F'})], follow_exc=False)
+        for ex in (g10.exitT, g10.exitF):
+            for st in res10.at(ex):
+                o10.count()
+                o10.witness((c10.name, ex == g10.exitT))
+                if 'POP-AFTER-ACCEPT' in st.flags:
+                    o10.fail(P, f'{c10.name}.give_part', 'part._group_pathing.pop()',
+                             f'{c10.name}.give_part pops the group-path stack after the downstream accepted the part: if that downstream is a GroupPath (groups in series, or an inner group '
+                             'path used as the output of an outer group) the entry removed is the downstream\'s, the part keeps the path it has just left and later leaves the next group '
+                             'through the wrong path (deadlock / unbounded recursion)', file=c10.mod.path, line=hit[2].lineno, path=res10.path_lines(ex, st))
     for s in inv.method_calls(P, 'remove_from_routing_history'):
         if s.cls is not None and s.cls.name == 'Batch':
             continue
